@@ -2,21 +2,25 @@
 (* Code -> spec, concurrent histories of the file-backed disk (C10).       *)
 (* The property claims less than linearizability here: operations on       *)
 (* distinct addresses never interfere, and operations ordered in real time *)
-(* on one address are observed in that order.  The driver has ONE writer   *)
-(* per address (so the writes of an address are totally ordered) and any   *)
-(* number of readers.  A read may return                                   *)
-(*   - the value of the last write that completed before the read began,   *)
+(* on one address are observed in that order.  Any number of writers and   *)
+(* readers per address.  last[a] is the set of values of completed writes  *)
+(* that no other completed write follows in real time (one element when    *)
+(* the writes of an address are ordered, several after concurrent writes). *)
+(* A read may return                                                       *)
+(*   - a value in last[a] as of its invocation,                            *)
 (*   - the value of any write that overlaps the read,                      *)
 (*   - TORN only if some write to that address overlaps the read.          *)
+(* In particular a read that begins after two concurrent writes have both  *)
+(* returned must see one of the two whole blocks, never a mixture.         *)
 (* Validation is deterministic (no search).                                *)
 EXTENDS DiskSem, TLC, Json, FiniteSets
 
 Trace == ndJsonDeserialize("trace.ndjson")
 
-VARIABLES cur,      \* [Addr -> value of the last completed write]
-          infl,     \* [Addr -> value being written, or -100]
+VARIABLES cur,      \* [Addr -> set of values of the real-time-maximal completed writes]  (last[a] above)
+          infl,     \* [Addr -> set of values being written]
           rd,       \* pending reads:  client -> [a, cands, over]
-          wr,       \* pending writes: client -> [a, v]
+          wr,       \* pending writes: client -> [a, v, pred]   pred = cur[a] when the write began
           n, l
 vars == <<cur, infl, rd, wr, n, l>>
 NoneV == -100
@@ -29,25 +33,24 @@ Del(f, k)    == [x \in DOMAIN f \ {k} |-> f[x]]
 Init == TLCSet(1, 0) /\ cur = <<>> /\ infl = <<>> /\ rd = <<>> /\ wr = <<>> /\ n = 0 /\ l = 1
 
 Reset == /\ Is("reset") /\ DOMAIN rd = {} /\ DOMAIN wr = {}
-         /\ cur' = ZeroDisk(E.n) /\ infl' = [a \in 0..(E.n-1) |-> NoneV]
+         /\ cur' = [a \in 0..(E.n-1) |-> {ZeroDisk(E.n)[a]}] /\ infl' = [a \in 0..(E.n-1) |-> {}]
          /\ rd' = <<>> /\ wr' = <<>> /\ n' = E.n /\ l' = l + 1
 
 InvWrite == /\ Is("inv") /\ E.op = "write" /\ E.a \in DOMAIN cur
-            /\ infl[E.a] = NoneV                       \* single writer per address (driver discipline)
-            /\ infl' = [infl EXCEPT ![E.a] = E.v]
-            /\ wr' = Put(wr, E.c, [a |-> E.a, v |-> E.v])
+            /\ infl' = [infl EXCEPT ![E.a] = @ \cup {E.v}]
+            /\ wr' = Put(wr, E.c, [a |-> E.a, v |-> E.v, pred |-> cur[E.a]])
             /\ rd' = [c \in DOMAIN rd |-> IF rd[c].a = E.a
                                            THEN [rd[c] EXCEPT !.cands = @ \cup {E.v}, !.over = TRUE] ELSE rd[c]]
             /\ l' = l + 1 /\ UNCHANGED <<cur, n>>
 ResWrite == /\ Is("res") /\ E.c \in DOMAIN wr /\ wr[E.c].a # -1 /\ E.r = OK
-            /\ cur' = [cur EXCEPT ![wr[E.c].a] = wr[E.c].v]
-            /\ infl' = [infl EXCEPT ![wr[E.c].a] = NoneV]
+            /\ cur' = [cur EXCEPT ![wr[E.c].a] = (@ \ wr[E.c].pred) \cup {wr[E.c].v}]   \* supersedes what completed before it began
+            /\ infl' = [infl EXCEPT ![wr[E.c].a] = @ \ {wr[E.c].v}]
             /\ wr' = Del(wr, E.c)
             /\ l' = l + 1 /\ UNCHANGED <<rd, n>>
 InvRead == /\ Is("inv") /\ E.op = "read" /\ E.a \in DOMAIN cur
            /\ rd' = Put(rd, E.c, [a |-> E.a,
-                                   cands |-> {cur[E.a]} \cup (IF infl[E.a] = NoneV THEN {} ELSE {infl[E.a]}),
-                                   over |-> infl[E.a] # NoneV])
+                                   cands |-> cur[E.a] \cup infl[E.a],
+                                   over |-> infl[E.a] # {}])
            /\ l' = l + 1 /\ UNCHANGED <<cur, infl, wr, n>>
 ResRead == /\ Is("res") /\ E.c \in DOMAIN rd
            /\ (E.r \in rd[E.c].cands \/ (rd[E.c].over /\ E.r = TORN))
@@ -55,7 +58,7 @@ ResRead == /\ Is("res") /\ E.c \in DOMAIN rd
            /\ l' = l + 1 /\ UNCHANGED <<cur, infl, wr, n>>
 \* out-of-range operations and Size are refused / answered independently of everything else
 InvOther == /\ Is("inv") /\ (E.op = "size" \/ E.a \notin DOMAIN cur)
-            /\ wr' = Put(wr, E.c, [a |-> -1, v |-> IF E.op = "size" THEN n ELSE PANIC])
+            /\ wr' = Put(wr, E.c, [a |-> -1, v |-> IF E.op = "size" THEN n ELSE PANIC, pred |-> {}])
             /\ l' = l + 1 /\ UNCHANGED <<cur, infl, rd, n>>
 ResOther == /\ Is("res") /\ E.c \in DOMAIN wr /\ wr[E.c].a = -1 /\ E.r = wr[E.c].v
             /\ wr' = Del(wr, E.c)
